@@ -623,4 +623,29 @@ theorem collect_eq_extend (m : IndexType) (files : List IndexFile) :
     rw [ih]
     simp [Collector.extend, unmarked, List.foldl_append]
 
+/-- Two pack lists that are permutations of each other give the same presence answers, lookup success and
+totals, whichever sorted permutations the two `into_index` calls produce. -/
+theorem answers_of_perm {m : IndexType} {ps ps' : List IndexPack} (hu : ps.Perm ps') {i i' : Index}
+    (h : i.IsIndexOf ((Collector.new m).extend ps)) (h' : i'.IsIndexOf ((Collector.new m).extend ps'))
+    (t : BlobType) (id : Nat) :
+    i.has t id = i'.has t id ∧ (i.getId t id).isSome = (i'.getId t id).isSome ∧
+    i.totalSize t = i'.totalSize t := by
+  have hf : FiledUnder ps t id ↔ FiledUnder ps' t id := by
+    simp only [FiledUnder, hu.mem_iff]
+  refine ⟨Bool.eq_iff_iff.mpr ?_, Bool.eq_iff_iff.mpr ?_, ?_⟩
+  · rw [has_iff_filed h, has_iff_filed h', hf]
+  · cases hr : retainsFull m t
+    · rw [getId_none_of_not_retained h hr, getId_none_of_not_retained h' hr]
+    · constructor
+      · intro hs
+        obtain ⟨e, he⟩ := Option.isSome_iff_exists.mp hs
+        obtain ⟨_, p, hp, ht, b, hb, hid, _⟩ := get_sound_filed h he
+        exact get_complete_filed h' hr (hf.mp ⟨p, hp, ht, b, hb, hid⟩)
+      · intro hs
+        obtain ⟨e, he⟩ := Option.isSome_iff_exists.mp hs
+        obtain ⟨_, p, hp, ht, b, hb, hid, _⟩ := get_sound_filed h' he
+        exact get_complete_filed h hr (hf.mpr ⟨p, hp, ht, b, hb, hid⟩)
+  · rw [totalSize_filed h, totalSize_filed h']
+    exact ((hu.filter _).map _).sum_nat
+
 end Rustic.Index
